@@ -25,7 +25,7 @@ RULE = ("grammar-aware fault enumeration (full product of per-field alphabets, n
         "inner packet with bad padding, misaligned, filler); plus raw filler of lengths 1..40. Each crafted reply is sent "
         "for every request of the phase and driven through LAN.send, LAN.authenticate, Device._send_command and "
         "AirConditioner.refresh; the same alphabets are also injected UNSOLICITED between two exchanges (idle phase), after the "
-        "handshake, as bursts of 300 / 3000 minimal packets of each type, as 64 kB .. 200 kB of marker-free garbage, as the same failure 15 times in a row on one device object, and as the answer to the IMPLICIT re-handshake of an operation that follows a lost connection or an expired authentication. Outcome must be frames / ProtocolError family / TimeoutError; device-level calls never raise. "
+        "handshake, as bursts of 300 / 3000 minimal packets of each type, as 64 kB .. 200 kB of marker-free garbage, as the same failure 15 times in a row on one device object, as the answer that follows 1 / 2 unanswered requests of the same authentication or exchange, as a packet that arrives 0 / 0.3 / 0.98 s behind a genuine handshake reply, and as the answer to the IMPLICIT re-handshake of an operation that follows a lost connection or an expired authentication. Outcome must be frames / ProtocolError family / TimeoutError; device-level calls never raise. "
         "A case is (protocol, phase, field values, driver); all non-trivial")
 ASSUMPTIONS = ["the crafted reply is repeated for every retransmission", "frames carried by 'valid' bodies are well-formed state reports"]
 IP, PORT = "10.0.0.3", 6444
@@ -63,6 +63,7 @@ def shards(tier):
     out += [("flood", t, 0) for t in range(0, 16, 4)]
     out += [("bulk", v, 0) for v in (2, 3)]
     out += [("streak", v, 0) for v in (2, 3)]
+    out += [("v3seq", 0, t) for t in range(16)]
     return out
 
 
@@ -244,8 +245,12 @@ def make_driver(name: str, w: World, version: int, token, key, idle=None):
     return drive
 
 
-def execute(version: int, phase: str, crafter, driver: str, reply_delay: float = None):
+def execute(version: int, phase: str, crafter, driver: str, reply_delay: float = None, silent_first: int = 0, post_auth: float = None):
+    """silent_first: the first k requests of the phase get no answer at all, the crafted bytes answer request k+1.
+    post_auth: the handshake is answered genuinely and the crafted bytes follow post_auth seconds behind the reply (i.e. inside
+    the pause the library makes after a successful handshake)."""
     w = World()
+    seen = {"n": 0}
     token, key = filler("c09/tok", 64), filler("c09/key", 32)
     sent = []
     idle = {}
@@ -266,6 +271,16 @@ def execute(version: int, phase: str, crafter, driver: str, reply_delay: float =
     idle["inject_after_auth"] = inject if version == 3 else (lambda: None)
 
     def script(req):
+        if post_auth is not None:
+            for p in req.responses:
+                req.send(p)
+            if req.kind == "handshake" and req.responses and not seen["n"] and (driver not in REAUTH_DRIVERS or idle.get("armed")):
+                seen["n"] = 1
+                pkt = crafter(req)
+                sent.append(pkt)
+                if pkt:
+                    req.send(pkt, 0.01 + post_auth)
+            return
         if phase == "rehandshake":
             if req.kind == "handshake" and idle.get("armed"):
                 pkt = crafter(req)
@@ -274,6 +289,13 @@ def execute(version: int, phase: str, crafter, driver: str, reply_delay: float =
                     req.send(pkt)
                 return
         elif phase != "idle" and (version == 2 or req.kind == phase) and not idle.get("honest"):
+            seen["n"] += 1
+            if seen["n"] <= silent_first:
+                return
+            if silent_first and seen["n"] > silent_first + 1:
+                for p in req.responses:
+                    req.send(p)
+                return
             pkt = crafter(req)
             sent.append(pkt)
             if pkt:
@@ -392,6 +414,30 @@ def run_shard(shard, tier) -> Stats:
                 st.ev(("v3", a, b, pad, magic, size, body, driver), f"{driver}:{oc}", True,
                       sample=None if (pad, magic, size, body, driver) != (0, 0x20, "actual", "signed-badpad", "send") else
                       {**case, "packet": res[1][0].hex() if res[1] else None})
+    elif kind == "v3seq":
+        # sequences inside ONE authentication / exchange: k unanswered requests, then the crafted answer (the retry budget is
+        # partly used up when it arrives); a crafted packet inside the pause that follows a genuine handshake
+        ptype = b
+        for pad, size, body in product((0, 15), ("actual", 0, 33), V3_BODIES):
+            for phase in V3_PHASES:
+                def crafter(req, pad=pad, size=size, body=body, phase=phase):
+                    sk = req.conn.state.get("session_key") if phase == "data" else None
+                    hs = req.responses[0][8:] if (phase == "handshake" and req.responses and len(req.responses[0]) == 72) else filler("c09/hs", 64)
+                    return craft_v3(phase, ptype, pad, 0x20, size, body, sk, hs)
+                for driver in (["authenticate"] + DRIVERS if phase == "handshake" else DRIVERS):
+                    for k in (1, 2):
+                        case = {"proto": 3, "phase": phase, "type": ptype, "pad": pad, "magic": 0x20, "size": size, "body": body, "driver": driver, "silent_first": k}
+                        res = execute(3, phase, crafter, driver, silent_first=k)
+                        oc = judge(st, case, driver, res[0], res[2], f"v3 phase={phase} after {k} unanswered requests type={ptype} body={body}")
+                        st.ev(("v3seq", b, pad, size, body, phase, driver, k), f"{driver}:{oc}", True)
+            def crafter2(req, pad=pad, size=size, body=body):
+                return craft_v3("data", ptype, pad, 0x20, size, body, req.conn.state.get("session_key"), filler("c09/hs", 64))
+            for driver in ["authenticate"] + DRIVERS + REAUTH_DRIVERS:     # the last three: behind the reply to an IMPLICIT re-handshake
+                for d in (0.0, 0.3, 0.98):
+                    case = {"proto": 3, "phase": "data", "type": ptype, "pad": pad, "magic": 0x20, "size": size, "body": body, "driver": driver, "post_auth": d}
+                    res = execute(3, "data", crafter2, driver, post_auth=d)
+                    oc = judge(st, case, driver, res[0], res[2], f"v3 packet {d} s after a genuine handshake reply type={ptype} body={body}")
+                    st.ev(("v3post", b, pad, size, body, driver, d), f"{driver}:{oc}", True)
     elif kind == "v3idle":
         ptype = b
         for pad, magic, size, body in product((0, 15), (0x20, 0x00), ("actual", 0, 33, "actual+1"), V3_BODIES):
@@ -518,5 +564,5 @@ def replay(case):
             sk = req.conn.state.get("session_key") if phase in ("data", "idle") else None
             hs = req.responses[0][8:] if (phase in ("handshake", "rehandshake") and req.responses and len(req.responses[0]) == 72) else filler("c09/hs", 64)
             return craft_v3("data" if phase == "idle" else "handshake" if phase == "rehandshake" else phase, case["type"], case["pad"], case["magic"], case["size"], case["body"], sk, hs)
-        res = execute(3, phase, crafter, case["driver"])
+        res = execute(3, phase, crafter, case["driver"], silent_first=case.get("silent_first", 0), post_auth=case.get("post_auth"))
     return {"outcome": exc_class(res[0]), "detail": str(res[0][1])[:300], "loop_errors": res[2]}
